@@ -890,7 +890,7 @@ def cache_snapshot():
 # MANIFEST-BEGIN
 MANIFEST = {
     'technique': 'history monitor: observation of a probe model in a pristine forked process vs after a generated prefix of public API calls in another pristine process; re-evaluation of every function returned during the prefix; snapshots of the process-global caches',
-    'level_text': 'For each case a probe model is observed (argument names and values, state map, RHS at probe points for vectorize on/off, a short run) in a pristine process and again after a generated history of API calls on models that share an operator name, template objects or the operator structure with it (compiles with clear True/False, in_place True/False, vectorize True/False, clear(), clear_frontend_caches(), failing compiles); the two observations must be identical and every function returned during the history must still return its original values. Histories whose risk class has an open finding run as probe families. A further family shares sub-circuit template objects over three hierarchy levels between the probe model and another circuit that is modified through one branch (update_var), compiled and run before the probe model is observed. Further families: simulations with long extrinsic inputs after earlier simulations with similar inputs; the same template object compiled vectorized and then scalar (and vice versa) with clear=True in between; Fortran builds one after the other under the same file name and with alternating float precision; operators that differ only in interior elements of constant vectors of more than 1000 elements; probe family: a circuit loaded from YAML, modified with update_var and loaded again from the same path (recorded finding). Held on observed histories only.',
+    'level_text': 'For each case a probe model is observed (argument names and values, state map, RHS at probe points for vectorize on/off, a short run) in a pristine process and again after a generated history of API calls on models that share an operator name, template objects or the operator structure with it (compiles with clear True/False, in_place True/False, vectorize True/False, clear(), clear_frontend_caches(), failing compiles); the two observations must be identical and every function returned during the history must still return its original values. Histories whose risk class has an open finding run as probe families. A further family shares sub-circuit template objects over three hierarchy levels between the probe model and another circuit that is modified through one branch (update_var), compiled and run before the probe model is observed. Further families: simulations with long extrinsic inputs after earlier simulations with similar inputs; the same template object compiled vectorized and then scalar (and vice versa) with clear=True in between; Fortran builds one after the other under the same file name and with alternating float precision; operators that differ only in interior elements of constant vectors of more than 1000 elements; probe family: a circuit loaded from YAML, modified with update_var and loaded again from the same path (recorded finding). A family compiles a model with a list-valued constant default on several nodes two or three times in one process. Held on observed histories only.',
     'level_note': 'Trusted: fork() gives a pristine copy of a zygote that imported PyRates but never called it. Fresh template objects are used for the probe model (template state carry-over is documented statefulness).',
 }
 # MANIFEST-END
